@@ -102,13 +102,13 @@ func (s *State) next(fr *Frame, in *ssa.Next) Value {
 	}
 	it.Rest = live
 	if len(it.Rest) == 0 {
-		return Tuple{False, zero(tt.At(1).Type()), zero(tt.At(2).Type())}
+		return Tuple{False, zeroOrNil(tt.At(1).Type()), zeroOrNil(tt.At(2).Type())}
 	}
 	if it.M != nil {
 		s.mapAccess(it.M, false)
 	}
 	k := 0
-	if s.cfg == nil || s.cfg.MapOrderFork {
+	if (s.cfg == nil || s.cfg.MapOrderFork) && s.atomic == 0 && !it.InOrder {
 		k = s.choice(len(it.Rest))
 	}
 	e := it.Rest[k]
@@ -431,3 +431,10 @@ func (s *State) appendSlice(a, b Slice, elem types.Type) Value {
 }
 
 var _ = fmt.Sprintf
+
+func zeroOrNil(t types.Type) Value {
+	if b, ok := t.(*types.Basic); ok && b.Kind() == types.Invalid {
+		return nil
+	}
+	return zero(t)
+}
